@@ -48,7 +48,7 @@ INVARIANTS TypeOK GenSound
     return edges, stats
 
 
-def make_scripts(edges, seed, varied=True):
+def make_scripts(edges, seed, varied=True, pairs=False):
     """One script per edge: a real history from the empty world to the edge's
     pre-state (a shortest path over deterministic edges, chosen at random among
     the shortest ones per seed), then the edge itself (the only logged step)."""
@@ -119,6 +119,22 @@ def make_scripts(edges, seed, varied=True):
         if varied:
             steps = wander(pre, rnd.randint(2, 6)) + [ed['e']]
             scripts.append({'id': len(edges) + i, 'steps': steps, 'log_from': len(steps) - 1, 'pre': ed['pre']})
+    if pairs:
+        # every pair of consecutive edges (e1 ; e2), both logged: what a call leaves
+        # behind for the next one (flags, caches) is exercised for every combination.
+        # e1 may be relational: the harness then continues from wherever it really got to
+        by_pre = collections.defaultdict(list)
+        for ed in edges:
+            by_pre[canon(ed['pre'])].append(ed)
+        nid = 2 * len(edges)
+        for e1 in edges:
+            pre = canon(e1['pre'])
+            if e1['p'] or pre not in level:
+                continue
+            for e2 in by_pre.get(canon(e1['post']), ()):
+                steps = path(pre) + [e1['e'], e2['e']]
+                scripts.append({'id': nid, 'steps': steps, 'log_from': len(steps) - 2, 'pre': e1['pre']})
+                nid += 1
     return scripts, unreachable
 
 
